@@ -1588,8 +1588,14 @@ def run_adjust(ctx):
             adj_here = [n for n in adj if n in mf0]
             hold = []
             if rng.random() < 0.6:
-                rest = [n for n in present if n not in adj_here]
-                rest_syms = sorted({sym_of_nuc(n) for n in rest} - {sym_of_nuc(n) for n in adj_here} - {None})
+                # held nuclides carry at least 1e-3 of the mass: setMassFracs re-normalises them by (1 - sum of the given
+                # fractions), a subtraction whose rounding error is amplified by 1/(their share) - rounding is outside the model
+                rest = [n for n in present if n not in adj_here and mf0[n] >= 1e-3]
+                share = {}
+                for n in present:
+                    if n not in adj_here:
+                        share[sym_of_nuc(n)] = share.get(sym_of_nuc(n), 0.0) + mf0[n]
+                rest_syms = sorted({s_ for s_, v in share.items() if s_ and v >= 1e-3} - {sym_of_nuc(n) for n in adj_here})
                 if rest_syms and rng.random() < 0.5:
                     e2 = rng.choice(rest_syms)
                     kw["elementToHoldConstant"] = e2
@@ -1602,7 +1608,7 @@ def run_adjust(ctx):
             A0 = sum(mf0[n] for n in adj_here)
             C0 = sum(mf0[n] for n in hold_here)
             room = max(0.0, 1.0 - C0)
-            if 1.0 - A0 - C0 > 1e-6:
+            if 1.0 - A0 - C0 > 1e-3:
                 val = rng.choice([min(A0 * 0.5, room), min(A0 * 1.25 + 0.015625, room * 0.75), 0.125 * room, 0.0, A0])
             else:
                 # nothing is left to absorb a change (every nuclide is adjusted or held): only the unchanged value is a
